@@ -29,6 +29,8 @@ _PURE = {
     'compress', 'delete', 'insert', 'flipud', 'fliplr', 'triu', 'tril', 'identity', 'array_split', 'cumprod', 'nansum',
     'log', 'exp', 'sqrt', 'log2', 'log10', 'log1p', 'vdot', 'inner', 'matmul', 'tensordot', 'einsum', 'trace', 'count_nonzero', 'intersect1d', 'in1d', 'isin', 'bincount',
     'atleast_1d', 'select', 'choose', 'clip', 'logical_and', 'not_equal', 'equal', 'greater', 'less',
+    'take_along_axis', 'swapaxes', 'moveaxis', 'empty_like', 'ones_like', 'full_like', 'greater_equal', 'less_equal',
+    'argwhere', 'lexsort', 'meshgrid', 'indices', 'broadcast_to',
 }
 
 
@@ -405,6 +407,55 @@ def scipy_ctor(func, args, kwargs):
         return MiniCSR(np.array(a))
     if isinstance(a, tuple) and len(a) == 2 and all(isinstance(x, (int, np.integer)) for x in a):
         return MiniCSR.zeros(a)
-    if isinstance(a, tuple) and 'shape' in kwargs:          # (data, (rows, cols)) form: empty matrices only
-        return MiniCSR.zeros(kwargs['shape'])
+    if isinstance(a, tuple) and len(a) in (2, 3):
+        # (data, (rows, cols)) and (data, indices, indptr): built as scipy builds them - duplicates are summed, the
+        # stored entries are exactly the listed ones (explicit zeros and the given order within a row included)
+        def concrete(x):
+            try:
+                arr = np.asarray(x)
+            except Exception:
+                return None
+            return arr if arr.dtype != object and arr.ndim == 1 else None
+        data = concrete(a[0])
+        if data is None:
+            return TOP
+        if len(a) == 2:
+            if not (isinstance(a[1], (tuple, list)) and len(a[1]) == 2):
+                return TOP
+            rows, cols = concrete(a[1][0]), concrete(a[1][1])
+            if rows is None or cols is None or not (len(rows) == len(cols) == len(data)):
+                return TOP
+            order = sorted(range(len(rows)), key=lambda i: int(rows[i]))          # row-major, input order within a row
+            rows, cols, data = rows[order], cols[order], data[order]
+        else:
+            indices, indptr = concrete(a[1]), concrete(a[2])
+            if indices is None or indptr is None or len(indices) != len(data) or len(indptr) < 1:
+                return TOP
+            cols = indices
+            rows = np.repeat(np.arange(len(indptr) - 1), np.diff(indptr).astype(int))
+            if len(rows) != len(cols):
+                return TOP
+        shape = kwargs.get('shape')
+        if shape is None:
+            if len(a) == 3:
+                shape = (len(a[2]) - 1, int(cols.max()) + 1 if len(cols) else 0)
+            else:
+                shape = (int(rows.max()) + 1 if len(rows) else 0, int(cols.max()) + 1 if len(cols) else 0)
+        if not (isinstance(shape, tuple) and len(shape) == 2 and all(isinstance(x, (int, np.integer)) for x in shape)):
+            return TOP
+        dt = kwargs.get('dtype')
+        try:
+            dense = np.zeros(shape, dtype=np.dtype(dt) if dt is not None else data.dtype)
+        except TypeError:
+            return TOP
+        store, seen = [], set()
+        for r, c, v in zip(rows.tolist(), cols.tolist(), data.tolist()):
+            if not (0 <= r < shape[0] and 0 <= c < shape[1]):
+                return TOP
+            dense[r, c] += v
+            if (r, c) not in seen:
+                seen.add((r, c))
+                store.append((r, c))
+        canonical = store == sorted(store) and all(dense[r, c] != 0 for r, c in store)
+        return MiniCSR(dense, None if canonical else store)
     return TOP
